@@ -109,6 +109,25 @@ def check_vector(v):
         after = C02.project(fmt, t)
         if not C02._same(fmt, [[c for c in r] for r in rows], after):
             extras.append(("the lazily read table no longer reads as its rows after slices of it were written", str(rows)[:300], str(after)[:300]))
+        # every column in turn replaced by itself: the modified write of the lazily read table is still the canonical text of its rows
+        import dataclasses as _dc
+        src_t = lazy_source()
+        for f_ in _dc.fields(src_t):
+            if fmt in ("vcf", "sam", "gtf", "gff") and f_.name in ("info", "genotypes", "extra", "atributes"):
+                continue
+            pm = os.path.join(d, "mod_one" + suffix)
+            t_ = lazy_source()
+
+            def write_replaced():
+                with bnp.open(pm, "w", **kw) as w:
+                    w.write(bnp.replace(t_, **{f_.name: getattr(lazy_source(), f_.name)}))
+                return open(pm, "rb").read()
+            o_ = outcome(write_replaced)
+            got_ = o_[1] if o_[0] == "ok" else None
+            if got_ != want:
+                extras.append(("a lazily read table with column %s replaced by itself is not written as the canonical text of its rows" % f_.name,
+                               want.decode("latin-1")[:300], (got_.decode("latin-1")[:300] if got_ is not None else str(o_)[:300])))
+                break
         if len(rows) >= 2:
             whole, other = lazy_source(), lazy_source()
             sel = other[1:]
